@@ -141,12 +141,41 @@ CHECKS.update({
                 technique="deterministic simulation: multi-node runs with a broker-log monitor; differential transport check"),
 })
 
+CHECKS.update({
+    "C20": dict(level="exploration",
+                text="Seeded operation sequences against the real JSONStore / SimpleStore / RedisDictStore / RedisListStore "
+                     "(simulated disk and Redis server) with a dict model: one or two client processes, every placement of "
+                     "invalidation delivery between operations and - the tracker being a thread - inside reads, cache size / "
+                     "SCAN page / server version knobs, crashes inside writes (torn, truncated, before rename, between two "
+                     "Redis commands), ENOSPC/EIO, garbage file, TTL on the virtual clock; plus the running engine: "
+                     "create/update/delete through REST with a crash and restart, TTL of records and histories, cached "
+                     "definition of a second instance after an update, factory selection.",
+                ref="5/C20", note=NOTE_BASE + "; redis and pottery are not installed anywhere in the sandbox, so RedisDict/"
+                                             "RedisList/Redis are in-process fakes with the documented semantics (the "
+                                             "store classes above them are the real code).",
+                technique="deterministic simulation: seeded operation/fault/delivery sequences vs reference model, ddmin"),
+})
+
+CHECKS.update({
+    "C11": dict(level="exploration",
+                text="The executions generated for C01-C07 run under seeded schedules with a cross-surface monitor: stored "
+                     "record, stored history and every notification at the moment it is published are compared at publish "
+                     "time and after every scheduler step; the record is additionally read where another thread or instance "
+                     "can really run (each Redis command boundary; a REST thread at each broker operation of the blocking "
+                     "engine thread); at the end the REST handlers of every instance must agree with the store and each "
+                     "other. Configurations: file/Redis x STANDARD/EXPRESS x 1-2 instances x both front ends.",
+                ref="5/C11", note=NOTE_BASE + "; fault-free runs; Redis/pottery are in-process fakes; file-backed runs use "
+                                             "one instance because a file store is not shared.",
+                technique="deterministic simulation: seeded schedules with an invariant monitor at every step and at "
+                          "simulated pre-emption points"),
+})
+
 NA = [
     ("C12", "pure functions of (document, path, result): no schedule, clock, fault or interleaving to simulate"),
     ("C13", "pure function of (template, input, context): no schedule, clock, fault or interleaving to simulate"),
     ("C14", "pure function of (rule tree, input): no schedule, clock, fault or interleaving to simulate"),
 ]
-NOT_YET = {'C11': 'check not built yet (in progress)', 'C20': 'check not built yet (in progress)'}
+NOT_YET = {}
 
 FIX_COMMITS = []
 
@@ -175,7 +204,7 @@ def build():
         "hooks": {
             "guard": "LSF_VERIF_SIM",
             "enable": "no source hooks exist: the harness (lsfsim/patches.py) puts /verif/fakes (pika, redis, pottery) "
-                      "first on sys.path and rebinds module attributes (time.time, datetime, uuid.uuid4, store.open) at "
+                      "first on sys.path and rebinds module attributes (time.time, datetime, uuid.uuid4, store.open, store.os, store.threading) at "
                       "import time; /repo is imported from its working tree on every run (VERIF_REPO, default /repo)",
             "baseline_off_cmd": "cd /repo && /venv/bin/python -m pytest -q -p no:cacheprovider --timeout=900",
             "source_commits": [],
